@@ -314,7 +314,9 @@ PROPS["C16"] = dict(
 )
 
 # regenerated call-order / shape facts as obligations of the properties that rely on them
-PROPS["C03"]["facts"] = dict(modules=["Sth.Obligations.Order"], theorems=["Sth.Obligations.C03_commit_order", "Sth.Obligations.C03_close_order"])
-PROPS["C12"]["facts"] = dict(modules=["Sth.Obligations.Order"], theorems=["Sth.Obligations.C12_flush_paths"])
-PROPS["C14"]["facts"] = dict(modules=["Sth.Obligations.Order"], theorems=["Sth.Obligations.C14_methods_atomic"])
-PROPS["C17"]["facts"] = dict(modules=["Sth.Obligations.Order"], theorems=["Sth.Obligations.C17_done_channels"])
+PROPS["C03"]["facts"] = dict(modules=["Sth.Obligations.FactsC03"], theorems=["Sth.Obligations.C03_commit_order", "Sth.Obligations.C03_close_order"])
+PROPS["C05"]["facts"] = dict(modules=["Sth.Obligations.FactsC05"], theorems=["Sth.Obligations.C05_mutators_atomic"])
+PROPS["C13"]["facts"] = dict(modules=["Sth.Obligations.FactsC05"], theorems=["Sth.Obligations.C05_mutators_atomic"])
+PROPS["C12"]["facts"] = dict(modules=["Sth.Obligations.FactsC12"], theorems=["Sth.Obligations.C12_flush_paths", "Sth.Obligations.C12_register_atomic"])
+PROPS["C14"]["facts"] = dict(modules=["Sth.Obligations.FactsC14"], theorems=["Sth.Obligations.C14_methods_atomic"])
+PROPS["C17"]["facts"] = dict(modules=["Sth.Obligations.FactsC17"], theorems=["Sth.Obligations.C17_done_channels"])
